@@ -25,8 +25,8 @@ def method_segments(an, cm, roles, m, res=None):
         if roles.kind != 'maplist':
             note = walking_iterator_slot(keep)
             if note is not None:
-                msg = ('G-UNKNOWN slot named through a loop-carried iterator (%s): walking an auxiliary structure node by node is not '
-                       'modelled for the caches in %s reached from %s::%s' % (note[0], show_site(note[1]), cm.name, m.key()))
+                msg = ('G-UNKNOWN slot named through a loop-carried iterator / an element of a local container (%s): not modelled for the '
+                       'caches in %s reached from %s::%s' % (note[0], show_site(note[1]), cm.name, m.key()))
                 if msg not in res.incomplete:
                     res.incomplete.append(msg)
         note = expired_reinsertion(keep)
@@ -61,6 +61,10 @@ def walking_iterator_slot(tops):
             return False
         if t and t[0] == 'deref' and len(t) > 1 and isinstance(t[1], tuple) and t[1] and t[1][0] == 'lv':
             return True
+        if t and t[0] == 'deref' and len(t) > 1 and isinstance(t[1], tuple):
+            inner = t[1][2] if (t[1][:1] == ('ld',) and len(t[1]) == 3) else t[1]
+            if isinstance(inner, tuple) and inner[:1] == ('elem',) and len(inner) > 1 and isinstance(inner[1], tuple) and inner[1][:1] == ('var',):
+                return True   # `*p` with p an element of a local container (pointers / iterators collected in an earlier loop)
         return any(has_lv_deref(x, depth + 1) for x in t if isinstance(x, tuple))
     for top in tops:
         for seg in top.all_segments():
@@ -771,6 +775,28 @@ def check_purge_first(res, prop, cm, roles, m, top):
                 if isinstance(a0, tuple) and len(a0) > 2 and a0[0] == 'lv' and (a0[1], a0[2]) in bounds and scan_pos.get(a0[2], 10 ** 9) < pos:
                     ok = True
                     break
+    if not ok and first_purge is not None and first_touch is not None and first_purge > first_touch and q_before is None or \
+            (not ok and first_purge is not None and q_before is not None):
+        # purge LAST: the operation works on the unpurged map, treating every key it finds as absent unless the key's own deadline is
+        # still ahead of the call's clock sample, and purges before it returns.  Observably that is the purge-first behaviour, but
+        # the rules of C02 / C04 / C17 / C18 are written for purge-first: not judged (exit 2), not reported.
+        guarded = True
+        bodies = ops.find_bodies(top, m)
+        hits = 0
+        for b in bodies:
+            sg = b.seg
+            if sg.cond('PRESENT') is True:
+                hits += 1
+                own = [c for c in sg.conds if c[0] in ('EXPIRED',) and isinstance(c[1][0], Ent) and c[1][0].kind in ('TTLOF', 'VIA', 'FOUND')]
+                if not own:
+                    guarded = False      # a hit that is not tested against its own deadline: plain "index used before the purge"
+        later_purge = first_purge is not None
+        if bodies and hits and guarded and later_purge:
+            msg = ('G-UNKNOWN purge-last with per-key liveness tests (the expired prefix is purged after the index was used) is not modelled '
+                   'in %s reached from %s::%s' % (show_site(site_of_seg(top, m)), cm.name, m.key()))
+            if msg not in res.incomplete:
+                res.incomplete.append(msg)
+            return
     # the purge (and every deadline written) uses a clock sample of the atomic step itself: in ut_map/ut_set the ttl list is
     # appended in lock order, so it is deadline-sorted only if clock samples are taken in lock order too, and "size() ==
     # live keys immediately after the call" needs the purge time to be inside the step, not before a wait for the mutex
